@@ -10,15 +10,18 @@ Quoting (`quote1 q s` = one-line Python literal, `quote3 q s` = triple-quoted li
 * `quote3_roundtrip_partial` the same for the triple form under `s ≠ []`
 * `quote3_empty_counterexample`  `""""""` is NOT recognised and comes back as six quote characters
 * `unquoted_passthrough`, `not_quoted_of_head`
-INI path (`iniValue interp splitMl raw`, `interp` = configparser's interpolation, a parameter):
-* `ini_quote_roundtrip_partial`   needs "no `%` in the value" (any interpolation that leaves `%`-free text alone)
-* `ini_quote_roundtrip_counterexample`, `ini_percent_percent_counterexample`   with `BasicInterpolation`
-* `ini_quote_roundtrip_nointerp`  full strength once the parser is built with `interpolation=None`
+INI path (`iniValue splitMl raw`; since /repo commit d27392d the parser is built with `interpolation=None`):
+* `ini_quote_roundtrip`           full strength: every string, `%` included (one-line forms)
+* `ini_quote3_roundtrip_partial`  triple forms, `s ≠ []`; `ini_quote3_empty_counterexample`
+* `ini_list_roundtrip`            full strength: `key = ["a", "b", …]`
+* historical (`iniValueOld basicInterp`, the code before d27392d): `ini_quote_roundtrip_old_partial` (needed "no `%`"),
+  `ini_quote_roundtrip_old_counterexample`, `ini_percent_percent_old_counterexample`,
+  `ini_list_roundtrip_old_partial`, `ini_list_roundtrip_old_counterexample`, `iniValue_eq_old`
 * `raw_nul_counterexample`        a raw NUL between quotes is recognised as quoted but cannot be evaluated
 Merge (any option table):
 * `cli_overrides_file`, `append_in_order`, `append_cli_in_order`, `unknown_key_filtered`,
   `unknown_key_not_applied`, `file_eq_cli`, `file_eq_cli_flag`, `file_eq_cli_count`, `later_file_wins`
-Lists in INI files: `evalList_listLit`, `ini_list_roundtrip_partial` (again "no `%`")
+Lists: `evalList_listLit` (`literal_eval` on a list display of quoted strings)
 -/
 namespace Config
 
@@ -477,62 +480,80 @@ theorem basicInterp_percentFree : PercentFreeId basicInterp := by
 
 theorem noInterp_percentFree : PercentFreeId noInterp := fun _ _ => rfl
 
-/-- value pipeline on a text that `interp` leaves alone, is recognised as quoted and evaluates to `s` -/
-theorem iniValue_of_quoted (interp : Str → InterpR) (splitMl : Bool) (q : Char) (rest s : Str) (hq : IsQ q)
+/-- value pipeline (with an interpolation step `interp`) on a text that `interp` leaves alone, is recognised
+as quoted and evaluates to `s` -/
+theorem iniValueOld_of_quoted (interp : Str → InterpR) (splitMl : Bool) (q : Char) (rest s : Str) (hq : IsQ q)
     (hi : interp (q :: rest) = .ok (q :: rest)) (hquoted : isQuoted true (q :: rest) = true)
     (hu : unquoteStr true (q :: rest) = .ok s) :
-    iniValue interp splitMl (q :: rest) = .str s := by
+    iniValueOld interp splitMl (q :: rest) = .str s := by
   have hb : q ≠ '[' := by rcases hq with rfl | rfl <;> decide
-  simp [iniValue, hi, hb, hquoted, hu]
+  simp [iniValueOld, hi, hb, hquoted, hu]
+
+/-- **Config.ini_quote_roundtrip** (full strength, the code since /repo commit d27392d:
+`ConfigParser(interpolation=None)`): every string — `%` included — written in a one-line quoted form as an INI
+value is read back as that string, with and without `split_ml_text_to_list`. -/
+theorem ini_quote_roundtrip (splitMl : Bool) (q : Char) (hq : IsQ q) (s : Str) :
+    iniValue splitMl (quote1 q s) = .str s :=
+  iniValueOld_of_quoted noInterp splitMl q _ s hq rfl (isQuoted_quote1 q hq s true) (quote_roundtrip q hq s true).2
 
 /-
-Full-strength statement (false of the current code, `interp = basicInterp`):
-  ∀ q s, iniValue basicInterp splitMl (quote1 q s) = .str s
-`IniConfigParser.parse` builds `configparser.ConfigParser()` with the default `BasicInterpolation`; reading
-the section's items interpolates every value, so a `%` in a quoted value either raises
-(`ini_quote_roundtrip_counterexample`) or, doubled, is halved (`ini_percent_percent_counterexample`).
+Full-strength statement for the triple forms (false of the current code):
+  ∀ q s, iniValue splitMl (quote3 q s) = .str s
+fails only at `s = []`, for the recogniser's reason (`quote3_empty_counterexample`; `ini_quote3_empty_counterexample`).
 -/
 
-/-- INI path, one-line quoted forms — needs "no `%` in the value" -/
-theorem ini_quote_roundtrip_partial (interp : Str → InterpR) (hi : PercentFreeId interp) (splitMl : Bool)
+/-- INI path, triple forms — needs a non-empty value (nothing about `%` any more) -/
+theorem ini_quote3_roundtrip_partial (splitMl : Bool) (q : Char) (hq : IsQ q) (s : Str) (hne : s ≠ []) :
+    iniValue splitMl (quote3 q s) = .str s :=
+  iniValueOld_of_quoted noInterp splitMl q _ s hq rfl (isQuoted_quote3 q hq s hne)
+    (quote3_roundtrip_partial q hq s hne).2
+
+/-- the empty string written with six quotes in an INI file comes back as the six quotes -/
+theorem ini_quote3_empty_counterexample :
+    iniValue true (quote3 '"' []) = .str ['"', '"', '"', '"', '"', '"'] := by decide +kernel
+
+example : iniValue true (quote1 '"' "100% a # b ; c = [d]\n".toList) = .str "100% a # b ; c = [d]\n".toList := by
+  decide +kernel
+example : iniValue true (quote1 '\'' "50%% %(x)s".toList) = .str "50%% %(x)s".toList := by decide +kernel
+-- unquoted values: passed through, split at newlines, `[…]` evaluated as a list of literals
+example : iniValue true "plain 100%".toList = .str "plain 100%".toList := by decide +kernel
+example : iniValue true "a\nb".toList = .list ["a".toList, "b".toList] := by decide +kernel
+example : iniValue true "['x', \"y\"]".toList = .list ["x".toList, "y".toList] := by decide +kernel
+example : iniValue true [] = .skip := by decide +kernel
+
+/-! ### Historical: the pipeline before /repo commit d27392d (`configparser.ConfigParser()`, BasicInterpolation)
+
+`iniValueOld interp` with `interp = basicInterp`.  Reading the section's items interpolated every value, so a
+`%` in a quoted value either raised or, doubled, was halved; the round trip needed "no `%` in the value". -/
+
+/-- OLD pipeline: one-line quoted forms are read back when the value has no `%` (for any interpolation step
+that leaves `%`-free text alone) -/
+theorem ini_quote_roundtrip_old_partial (interp : Str → InterpR) (hi : PercentFreeId interp) (splitMl : Bool)
     (q : Char) (hq : IsQ q) (s : Str) (hs : '%' ∉ s) :
-    iniValue interp splitMl (quote1 q s) = .str s :=
-  iniValue_of_quoted interp splitMl q _ s hq (hi _ (not_mem_quote1_percent q hq s hs))
+    iniValueOld interp splitMl (quote1 q s) = .str s :=
+  iniValueOld_of_quoted interp splitMl q _ s hq (hi _ (not_mem_quote1_percent q hq s hs))
     (isQuoted_quote1 q hq s true) (quote_roundtrip q hq s true).2
 
-/-- INI path, triple forms — needs "no `%`" and a non-empty value -/
-theorem ini_quote3_roundtrip_partial (interp : Str → InterpR) (hi : PercentFreeId interp) (splitMl : Bool)
-    (q : Char) (hq : IsQ q) (s : Str) (hs : '%' ∉ s) (hne : s ≠ []) :
-    iniValue interp splitMl (quote3 q s) = .str s :=
-  iniValue_of_quoted interp splitMl q _ s hq (hi _ (not_mem_quote3_percent q hq s hs))
-    (isQuoted_quote3 q hq s hne) (quote3_roundtrip_partial q hq s hne).2
+/-- OLD pipeline with the default `BasicInterpolation`: the hypothesis was met … -/
+theorem ini_quote_roundtrip_old_basic (splitMl : Bool) (q : Char) (hq : IsQ q) (s : Str) (hs : '%' ∉ s) :
+    iniValueOld basicInterp splitMl (quote1 q s) = .str s :=
+  ini_quote_roundtrip_old_partial basicInterp basicInterp_percentFree splitMl q hq s hs
 
-/-- with the default `BasicInterpolation` (the code today) the hypothesis is met … -/
-theorem ini_quote_roundtrip_basic (splitMl : Bool) (q : Char) (hq : IsQ q) (s : Str) (hs : '%' ∉ s) :
-    iniValue basicInterp splitMl (quote1 q s) = .str s :=
-  ini_quote_roundtrip_partial basicInterp basicInterp_percentFree splitMl q hq s hs
+/-- HISTORICAL counterexample (fixed by d27392d): `project-name = "100%"` was refused (the whole file: exit 2) -/
+theorem ini_quote_roundtrip_old_counterexample :
+    iniValueOld basicInterp true (quote1 '"' ['1', '0', '0', '%']) = .error .interpolation ∧
+    iniValue true (quote1 '"' ['1', '0', '0', '%']) = .str ['1', '0', '0', '%'] := by decide +kernel
 
-/-- … and it is needed: `project-name = "100%"` is refused (the whole file is: exit 2) -/
-theorem ini_quote_roundtrip_counterexample :
-    iniValue basicInterp true (quote1 '"' ['1', '0', '0', '%']) = .error .interpolation := by decide +kernel
-
-/-- a doubled `%` is read back halved -/
-theorem ini_percent_percent_counterexample :
-    iniValue basicInterp true (quote1 '\'' ['1', '0', '0', '%', '%']) = .str ['1', '0', '0', '%'] := by
+/-- HISTORICAL counterexample (fixed by d27392d): a doubled `%` was read back halved -/
+theorem ini_percent_percent_old_counterexample :
+    iniValueOld basicInterp true (quote1 '\'' ['1', '0', '0', '%', '%']) = .str ['1', '0', '0', '%'] ∧
+    iniValue true (quote1 '\'' ['1', '0', '0', '%', '%']) = .str ['1', '0', '0', '%', '%'] := by
   decide +kernel
 
-/-- built with `interpolation=None` (proposed fix) the INI path reads every one-line quoted string back -/
-theorem ini_quote_roundtrip_nointerp (splitMl : Bool) (q : Char) (hq : IsQ q) (s : Str) :
-    iniValue noInterp splitMl (quote1 q s) = .str s :=
-  iniValue_of_quoted noInterp splitMl q _ s hq rfl (isQuoted_quote1 q hq s true) (quote_roundtrip q hq s true).2
-
-example : iniValue basicInterp true (quote1 '"' "a # b ; c = [d]\n".toList) = .str "a # b ; c = [d]\n".toList := by
-  decide +kernel
--- unquoted values: passed through, split at newlines, `[…]` evaluated as a list of literals
-example : iniValue basicInterp true "plain".toList = .str "plain".toList := by decide +kernel
-example : iniValue basicInterp true "a\nb".toList = .list ["a".toList, "b".toList] := by decide +kernel
-example : iniValue basicInterp true "['x', \"y\"]".toList = .list ["x".toList, "y".toList] := by decide +kernel
-example : iniValue basicInterp true [] = .skip := by decide +kernel
+/-- on `%`-free values the old and the new pipeline agree -/
+theorem iniValue_eq_old (splitMl : Bool) (raw : Str) (h : '%' ∉ raw) :
+    iniValueOld basicInterp splitMl raw = iniValue splitMl raw := by
+  simp [iniValue, iniValueOld, basicInterp_percentFree raw h, noInterp]
 
 /-! ## Merge of config-file items into the argument vector (any option table)
 
@@ -1228,29 +1249,41 @@ theorem getLast?_itemsTail (q : Char) (ss : List Str) : (itemsTail q ss).getLast
         simp [ih]
       simp [this]
 
-/-- INI path, list option: `key = ["a", "b", …]` with `%`-free items is read back as that list, in order
-(the `%` hypothesis is needed for the same reason as in `ini_quote_roundtrip_partial`) -/
-theorem ini_list_roundtrip_partial (interp : Str → InterpR) (hi : PercentFreeId interp) (splitMl : Bool)
+theorem getLast?_listLit (q : Char) (ss : List Str) : (listLit q ss).getLast? = some ']' := by
+  simp only [listLit]
+  have := getLast?_itemsTail q ss
+  cases hit : itemsTail q ss with
+  | nil => rw [hit] at this; simp at this
+  | cons a b => rw [List.getLast?_cons_cons, ← hit]; exact this
+
+/-- **Config.ini_list_roundtrip** (full strength, the code since /repo commit d27392d): a list option written
+`key = ["a", "b", …]` in an INI file is read back as that list, in order — whatever the items contain. -/
+theorem ini_list_roundtrip (splitMl : Bool) (q : Char) (hq : IsQ q) (ss : List Str) :
+    iniValue splitMl (listLit q ss) = .list ss := by
+  unfold iniValue iniValueOld
+  simp only [noInterp, evalList_listLit q hq ss, getLast?_listLit q ss]
+  simp [listLit]
+
+/-- OLD pipeline (before d27392d): the same needed `%`-free items -/
+theorem ini_list_roundtrip_old_partial (interp : Str → InterpR) (hi : PercentFreeId interp) (splitMl : Bool)
     (q : Char) (hq : IsQ q) (ss : List Str) (hs : ∀ s ∈ ss, '%' ∉ s) :
-    iniValue interp splitMl (listLit q ss) = .list ss := by
+    iniValueOld interp splitMl (listLit q ss) = .list ss := by
   have hp : '%' ∉ listLit q ss := by
     simp only [listLit, List.mem_cons, not_or]
     exact ⟨by decide, not_mem_itemsTail_percent q hq ss hs⟩
-  have hlast : (listLit q ss).getLast? = some ']' := by
-    simp only [listLit]
-    have := getLast?_itemsTail q ss
-    cases hit : itemsTail q ss with
-    | nil => rw [hit] at this; simp at this
-    | cons a b => rw [List.getLast?_cons_cons, ← hit]; exact this
-  unfold iniValue
+  unfold iniValueOld
   rw [hi _ hp]
-  simp only [evalList_listLit q hq ss, hlast]
+  simp only [evalList_listLit q hq ss, getLast?_listLit q ss]
   simp [listLit]
 
-example : iniValue basicInterp true (listLit '"' ["it's".toList, "a \"b\"".toList, [], "x\ny".toList]) =
-    .list ["it's".toList, "a \"b\"".toList, [], "x\ny".toList] := by decide +kernel
+example : iniValue true (listLit '"' ["it's".toList, "a \"b\"".toList, [], "x\ny".toList, "100%".toList]) =
+    .list ["it's".toList, "a \"b\"".toList, [], "x\ny".toList, "100%".toList] := by decide +kernel
 example : listLit '\'' ["a".toList, "b'c".toList] = "['a', 'b\\'c']".toList := by decide +kernel
-example : iniValue basicInterp true (listLit '"' ["100%".toList]) = .error .interpolation := by decide +kernel
+
+/-- HISTORICAL counterexample (fixed by d27392d): one item with `%` refused the whole list (and file) -/
+theorem ini_list_roundtrip_old_counterexample :
+    iniValueOld basicInterp true (listLit '"' ["100%".toList]) = .error .interpolation ∧
+    iniValue true (listLit '"' ["100%".toList]) = .list ["100%".toList] := by decide +kernel
 
 /-! ## The table hypotheses as the executable check the harness runs on the live parser -/
 
